@@ -39,6 +39,10 @@ def rand_stream(rng, sid, signal, props, opts=None, nb=None, guarded=True, size=
 def opts_random(rng):
     o = {"dict": rng.choice(DICTS), "hasOrder": True, "orderSpan": rng.choice(ORDER_SPAN),
          "attrs16": rng.choice(ATTRS16), "attrs32": rng.choice(ATTRS32), "zstd": rng.choice([True, False])}
+    if rng.random() < 0.15:
+        # a corner of the ordering lattice: everything unordered / everything on its last variant
+        k = rng.choice([0, -1])
+        o.update(orderSpan=ORDER_SPAN[k], attrs16=ATTRS16[k], attrs32=ATTRS32[k])
     t = rng.choice([None, 0.0, 0.3, 1.0, 5.0, -1.0])
     if t is not None:
         o["thr"] = t
@@ -102,7 +106,7 @@ def execute(plan, shards=8, timeout=1500, binp=None, test="TestPlan", extra_env=
     outs = [os.path.join(d, "trace%d.ndjson" % s) for s in range(shards)]
     notes = []
     def one(s):
-        env = dict(extra_env or {}, VERIF_STREAM_OUT=outs[s] + ".stream")
+        env = dict(extra_env or {}, VERIF_STREAM_OUT=outs[s] + ".stream", VERIF_WIRE_OUT=outs[s] + ".wire")
         rc, out = run_shard(binp, planp, s, shards, outs[s], timeout, test=test, extra_env=env)
         if rc != 0 and "DATA RACE" in out:
             notes.append({"shard": s, "kind": "race", "output": out[out.find("WARNING: DATA RACE"):][:3000]})
@@ -386,6 +390,39 @@ def run_dictobs(outs, plan, timeout=1200):
         for nrec, ncol, drift in pool.map(one, range(len(chunks))):
             res["records"] += nrec
             res["columns"] += ncol
+            res["drift"].extend(drift)
+    C.drop_scratch(d)
+    return res
+
+def run_otapwire(outs, timeout=1200, chunk=400):
+    """OtapWire.tla on the id / parent-id view of every small emitted batch (files <trace>.wire written by the harness).
+    Returns dict(batches, rows, drift=[[tr, k, clause, table]])."""
+    d = C.scratch("otapwire.")
+    lines = []
+    for o in outs:
+        wp = o + ".wire"
+        if os.path.exists(wp):
+            with open(wp) as fh:
+                lines.extend(fh.readlines())
+    res = {"batches": 0, "rows": 0, "drift": []}
+    if not lines:
+        C.drop_scratch(d)
+        return res
+    cfg = 'SPECIFICATION Spec\nCONSTANT TraceFile = "trace.ndjson"\nINVARIANT Report\nCHECK_DEADLOCK FALSE\n'
+    chunks = [lines[j:j + chunk] for j in range(0, len(lines), chunk)]
+    def one(k):
+        cp = os.path.join(d, "chunk%d.ndjson" % k)
+        open(cp, "w").writelines(chunks[k])
+        r = C.run_tlc(SPEC, "OtapWire", cfg, workers=1, timeout=timeout, files={"trace.ndjson": cp}, heap="4g")
+        m = re.search(r'<<"OTAPWIRE-RESULT", (\d+), (\d+), "(.*)">>', r["out"])
+        C.drop_scratch(r["dir"])
+        if not m:
+            raise C.Inconclusive("OtapWire did not finish:\n" + r["out"][-2500:])
+        return int(m.group(1)), int(m.group(2)), json.loads(m.group(3).encode().decode("unicode_escape"))
+    with ThreadPoolExecutor(max_workers=6) as pool:
+        for nb, nr, drift in pool.map(one, range(len(chunks))):
+            res["batches"] += nb
+            res["rows"] += nr
             res["drift"].extend(drift)
     C.drop_scratch(d)
     return res
